@@ -4,6 +4,7 @@
 package synth
 
 import (
+	"github.com/rs/zerolog"
 	"bufio"
 	"fmt"
 	"os"
@@ -24,6 +25,7 @@ func TestCorr(t *testing.T) {
 		t.Skip("CORR_ENGINE not set")
 	}
 	tier := os.Getenv("CORR_TIER")
+	zerolog.SetGlobalLevel(zerolog.Disabled) // the bandwidth toxic logs through the global logger
 	seed, _ := strconv.ParseUint(os.Getenv("CORR_SEED"), 10, 64)
 	out := os.Getenv("CORR_OUT")
 	args := strings.Fields(os.Getenv("CORR_ARGS"))
